@@ -64,11 +64,12 @@ class Scte35Events(RepeatingEventBase):
         duration = self.duration * MPEG_TIMEBASE // self.timescale
         # auto_return is True for the OUT and False for the IN
         auto_return = (event_id & 1) == 0
-        if self.count > 0:
+        avails_expected = avail_num = 0
+        if self.count > 0 and (self.count // 2) < 255:
+            # avail_num and avails_expected are 8 bit fields, zero
+            # indicates that avail numbering is not used
             avail_num = 1 + (event_id // 2)
             avails_expected = 1 + (self.count // 2)
-        else:
-            avails_expected = avail_num = 0
 
         # According to ETSI TS 103 752-1 V1.1.1 the Placement Opportunity
         # and Advertisement segmentation_descriptors may be of type
